@@ -63,6 +63,7 @@ type Probe struct {
 	Fam   string `json:"fam"`   // "4" | "6" | "arp"
 	Src   string `json:"src"`   // "a1" | "a2" | "near" | "rev" | "in2" | "out" | "zero"
 	Trunc bool   `json:"trunc"` // IP header cut short
+	Bare  bool   `json:"bare"`  // the frame ends with the IP header (no payload at all): a complete header, judged like any other frame
 	// abstract facts about the source address (the trusted, byte-level part of the harness)
 	Addr  int   `json:"addr"`  // index of the bound-address constant it equals (0 = none)
 	InRng []int `json:"inrng"` // indices of the configured-range constants containing it
@@ -134,6 +135,13 @@ func probes(nmacs int) []Probe {
 			}
 			out = append(out, p)
 		}
+		// header-only frames (IPv4 total length 20, IPv6 payload length 0 / no next header): source known and foreign
+		for _, b := range out[len(out)-13:] {
+			if b.Src == "a1" || b.Src == "near" || b.Src == "out" {
+				b.Bare = true
+				out = append(out, b)
+			}
+		}
 		out = append(out, Probe{Mac: m, Fam: "arp", Src: "a1", InRng: []int{}}, Probe{Mac: m, Fam: "4", Src: "a1", Trunc: true, Addr: 1, InRng: []int{1}},
 			Probe{Mac: m, Fam: "6", Src: "a1", Trunc: true, Addr: 1, InRng: []int{}})
 	}
@@ -156,6 +164,9 @@ func frame(p Probe) []byte {
 		copy(ip[16:20], net.IPv4(8, 8, 8, 8).To4())
 		if p.Trunc {
 			ip = ip[:10]
+		} else if p.Bare {
+			ip = ip[:20]
+			binary.BigEndian.PutUint16(ip[2:], 20)
 		}
 		return append(eth, ip...)
 	case "6":
@@ -167,6 +178,10 @@ func frame(p Probe) []byte {
 		copy(ip[24:40], net.ParseIP("2001:4860:4860::8888"))
 		if p.Trunc {
 			ip = ip[:20]
+		} else if p.Bare {
+			ip = ip[:40]
+			ip[6] = 59
+			binary.BigEndian.PutUint16(ip[4:], 0)
 		}
 		return append(eth, ip...)
 	}
